@@ -1,0 +1,32 @@
+//go:build verif
+
+package js_parser
+
+import (
+	"github.com/evanw/esbuild/internal/ast"
+	"github.com/evanw/esbuild/internal/js_ast"
+	"github.com/evanw/esbuild/internal/js_lexer"
+	"github.com/evanw/esbuild/internal/logger"
+)
+
+// VerifParseNoVisit runs only the first (parse) pass of Parse: no symbol binding, no constant folding, no
+// lowering. Identifier references still hold stored names; nameOf resolves them.
+func VerifParseNoVisit(log logger.Log, source logger.Source, options Options) (stmts []js_ast.Stmt, nameOf func(ast.Ref) string, ok bool) {
+	ok = true
+	defer func() {
+		r := recover()
+		if _, isLexerPanic := r.(js_lexer.LexerPanic); isLexerPanic {
+			ok = false
+		} else if r != nil {
+			panic(r)
+		}
+	}()
+	p := newParser(log, source, js_lexer.NewLexer(log, source, options.ts), &options)
+	p.fnOrArrowDataParse.await = allowExpr
+	p.fnOrArrowDataParse.isTopLevel = true
+	stmts = p.parseStmtsUpTo(js_lexer.TEndOfFile, parseStmtOpts{
+		isModuleScope:          true,
+		allowDirectivePrologue: true,
+	})
+	return stmts, p.loadNameFromRef, ok
+}
